@@ -6,6 +6,7 @@
 From Coq Require Import List NArith Bool Lia.
 From Verif Require Import gen.GoLoops.
 From Verif Require Model.Throttle.
+From Coq Require String.
 Import ListNotations.
 Open Scope N_scope.
 Open Scope list_scope.
@@ -48,5 +49,14 @@ Section Pending.
       rewrite Hl. unfold L_get_pending.loop_start. apply go_get_pending_gen. lia.
   Qed.
 End Pending.
+
+
+(* the loop reads exactly these inputs, by name (the lemmas instantiate them by position) *)
+Section InputNames.
+Import String.
+Open Scope string_scope.
+Lemma go_get_pending_inputs : LoopInputs.loop_get_pending_inputs = (["height"; "lastSubmitted"]).
+Proof. reflexivity. Qed.
+End InputNames.
 
 Print Assumptions go_get_pending.
